@@ -91,6 +91,7 @@ type Config struct {
 	Deadline    time.Duration
 	GCEvery     int
 	MaxSamples  int
+	OnState     func(path []Op) // called for every new state (after the monitor)
 }
 
 // Warmer is implemented by monitors that check a cheap subset of their suite on the
@@ -639,6 +640,9 @@ func Explore(u *Universe, m Monitor, cfg Config) *Result {
 							return e.res
 						}
 					}
+				}
+				if isNew && cfg.OnState != nil {
+					cfg.OnState(full)
 				}
 				if isNew {
 					id := int32(len(e.rec))
